@@ -438,6 +438,113 @@ theorem C09_accepts_valid_partial (cfg : Cfg) (h : build cfg = some .cycle) :
   · exact hn
   · exact hmem x hx'
 
+/-- inside pipeline `p`: its capabilities node, processors, fan-out node -/
+def Zone (p : Pipeline) (x : Node) : Prop := x ∈ Node.cap p.id :: procNodes p ∨ x = Node.fanout p.id
+
+/-- a walk of the built graph that ends at the entry of pipeline `p0` projects to a chain of connector hops:
+from a node inside pipeline `p`, and from a connector node attached on `p`'s exporter side -/
+theorem path_to_feeds {cfg : Cfg} (wf : cfg.WF) {x y : Node} (hp : Path (edges cfg) x y) :
+    ∀ p0, p0 ∈ cfg.pipes → y = Node.cap p0.id →
+      (∀ p, p ∈ cfg.pipes → Zone p x → FeedsPath cfg p p0) ∧
+      (∀ p es rs c, p ∈ cfg.pipes → x = Node.conn es rs c → x ∈ pipeExpNodes cfg p → FeedsPath cfg p p0) := by
+  induction hp with
+  | @single x y hE =>
+    intro p0 hp0 hy
+    subst hy
+    constructor
+    · intro p hpm hz
+      exfalso
+      rcases hz with hz | rfl
+      · rcases chain_tgt_mem (chain_out wf hpm hz hE) with h' | h'
+        · simp only [procNodes, List.mem_map] at h'
+          obtain ⟨_, _, h''⟩ := h'
+          cases h''
+        · cases h'
+      · rcases mem_pipeExpNodes.mp (fanout_out wf hpm hE) with ⟨_, _, _, h'⟩ | ⟨_, _, _, _, _, _, _, h'⟩ <;> cases h'
+    · intro p es rs c hpm hx hxe
+      subst hx
+      obtain ⟨q, hq, hmem, hcap⟩ := src_out (Or.inr ⟨_, _, _, rfl⟩) hE
+      have : q = p0 := pipe_eq_of_id wf hq hp0 (Node.cap.inj hcap).symm
+      subst this
+      exact FeedsPath.single hpm hq (feeds_of_conn hxe hmem)
+  | @cons x b y hE hrest ih =>
+    intro p0 hp0 hy
+    have ih' := ih p0 hp0 hy
+    constructor
+    · intro p hpm hz
+      rcases hz with hz | rfl
+      · have hb : Zone p b := by
+          rcases chain_tgt_mem (chain_out wf hpm hz hE) with h' | h'
+          · exact Or.inl (List.mem_cons_of_mem _ h')
+          · exact Or.inr h'
+        exact ih'.1 p hpm hb
+      · rcases mem_pipeExpNodes.mp (fanout_out wf hpm hE) with ⟨e, _, _, rfl⟩ | ⟨c, hce, hic, q, hq, hcr, hs, rfl⟩
+        · obtain ⟨m, hm⟩ := path_first hrest
+          exact absurd hm exp_no_out
+        · exact ih'.2 p _ _ _ hpm rfl (fanout_out wf hpm hE)
+    · intro p es rs c hpm hx hxe
+      subst hx
+      obtain ⟨q, hq, hmem, rfl⟩ := src_out (Or.inr ⟨_, _, _, rfl⟩) hE
+      exact FeedsPath.cons hpm hq (feeds_of_conn hxe hmem) (ih'.1 q hq (Or.inl List.mem_cons_self))
+
+/-- a closed walk of the built graph projects to a connector cycle of the configuration -/
+theorem closed_walk_connectorCycle {cfg : Cfg} (wf : cfg.WF) {x : Node} (hp : Path (edges cfg) x x) : ConnectorCycle cfg := by
+  obtain ⟨q, hq, hqq⟩ := closed_to_cap wf hp
+  exact ⟨q, (path_to_feeds wf hqq q hq rfl).1 q hq (Or.inl List.mem_cons_self)⟩
+
+/-- **acceptance**: every well-formed configuration without unsupported connector use and without connector
+cycle is accepted (`C09_accepts_valid_full` holds) — so the hypothesis `build cfg = none` of `C09_delivery` is
+implied by the configuration-level validity the property speaks of -/
+theorem C09_accepts_valid : C09_accepts_valid_full := by
+  intro cfg wf hu hc
+  cases hb : build cfg with
+  | none => rfl
+  | some e =>
+    cases e with
+    | connector => exact absurd ((C09_unsupported cfg).mp hb) hu
+    | cycle =>
+      obtain ⟨n, _, hp⟩ := C09_accepts_valid_partial cfg hb
+      exact absurd (closed_walk_connectorCycle wf hp) hc
+
+/-- the cycle error is returned exactly for the configurations whose connector uses are all supported and
+form a cycle -/
+theorem C09_cycle_iff (cfg : Cfg) (wf : cfg.WF) : build cfg = some .cycle ↔ (¬ UnsupportedUse cfg ∧ ConnectorCycle cfg) := by
+  constructor
+  · intro hb
+    have hu : ¬ UnsupportedUse cfg := fun hu => by
+      have := (C09_unsupported cfg).mpr hu
+      rw [hb] at this; cases this
+    obtain ⟨n, _, hp⟩ := C09_accepts_valid_partial cfg hb
+    exact ⟨hu, closed_walk_connectorCycle wf hp⟩
+  · rintro ⟨hu, hc⟩
+    have hok : createNodesOk cfg = true := by
+      cases h : createNodesOk cfg with
+      | true => rfl
+      | false => exact absurd (createNodesOk_false.mp h) hu
+    exact (C09_cycle_rejected cfg hc).2 hok
+
+/-- routing for every valid configuration, with validity stated on the configuration alone -/
+theorem C09_delivery_valid (cfg : Cfg) (wf : cfg.WF) (hu : ¬ UnsupportedUse cfg) (hc : ¬ ConnectorCycle cfg)
+    (s : Sig) (r : CompId) (hn : Node.recv s r ∈ nodes cfg) :
+    ∃ k ws, deliver (succ cfg) k (Node.recv s r) = some ws ∧ ws.Nodup ∧ ∀ w, w ∈ ws ↔ CfgRoute cfg s r w :=
+  C09_delivery cfg wf (C09_accepts_valid cfg wf hu hc) s r hn
+
+/-! ## content of the cycle error -/
+
+/-- whatever printed cycle the monitor accepts is a genuine closed walk of the built graph through every listed
+processor and connector — hence (by `closed_walk_connectorCycle`) witnesses a connector cycle of the configuration -/
+theorem C09_cycle_message_sound (cfg : Cfg) (wf : cfg.WF) (l : List Node) (h : cycleMsgOk cfg l = true) :
+    ∃ n rest, l = n :: rest ∧ isConnNode n = true ∧ Path (edges cfg) n n ∧
+      (∀ x, x ∈ rest → Path (edges cfg) n x) ∧ ConnectorCycle cfg := by
+  cases l with
+  | nil => simp [cycleMsgOk] at h
+  | cons n rest =>
+    simp only [cycleMsgOk, Bool.and_eq_true, Bool.not_eq_true', beq_iff_eq] at h
+    obtain ⟨⟨⟨hc, _⟩, hlast⟩, hchain⟩ := h
+    have hall := linkedChain_path rest n hchain
+    have hmem : n ∈ rest := List.mem_of_getLast? hlast
+    exact ⟨n, rest, rfl, hc, hall n hmem, hall, closed_walk_connectorCycle wf (hall n hmem)⟩
+
 /-! ## non-vacuity -/
 
 /-- traces/0 and traces/1 share receiver 1 and exporter 1; traces/0 also feeds connector 5 into metrics/0 -/
@@ -467,6 +574,10 @@ def exCyc : Cfg :=
               { id := ⟨.metrics, 0⟩, recv := [5], procs := [], exps := [6, 1] }] }
 
 example : build exCyc = some .cycle := by decide
+/-- the message the real code prints for `exCyc` is accepted by the monitor -/
+example : cycleMsgOk exCyc [Node.conn .traces .metrics 5, Node.conn .metrics .traces 6, Node.proc ⟨.traces, 0⟩ 1,
+    Node.conn .traces .metrics 5] = true := by decide
+example : cycleMsgOk exCyc [Node.conn .traces .metrics 5, Node.proc ⟨.traces, 0⟩ 1, Node.conn .traces .metrics 5] = false := by decide
 example : ConnectorCycle exCyc :=
   ⟨exCyc.pipes[0], FeedsPath.cons (q := exCyc.pipes[1]) (by decide) (by decide) (by decide)
     (FeedsPath.single (by decide) (by decide) (by decide))⟩
